@@ -107,6 +107,9 @@ class TerminalPredicate(BaseModel):
     logical_operator: LogicalOperatorEnum
     right_term: Union[float, int, str, tuple, Identifier]
 
+    class Config:
+        smart_union = True
+
 
 class RecursivePredicate(BaseModel):
     """
